@@ -220,10 +220,44 @@ def colliding_world(ctx, rep):
         rep.ok("C13-collide", where, f"== is the same relation and leaves its operands untouched on {n} objects when every hash collides ({n * n} comparisons)")
 
 
+def aliasing_world(ctx, rep):
+    """C13-alias: the same universe in a world where an identical constructor call returns the very same object
+    (labels, indices, multi-indices, literals, terminals shared by identity between different values, as they are
+    after replace() / reconstruct): == must be the same relation - sharing a part never makes two values equal."""
+    prog = ctx.prog
+    where = prog.get_function("ufl.exprequals", "expr_equals")
+    W = FormWorld(ctx)
+    W.intern, W._interned = True, {}
+    ip = W.ip
+    U = build(W)
+    names = [x[0] for x in U.items]
+    objs = [x[1] for x in U.items]
+    keys = [x[2] for x in U.items]
+    n = len(objs)
+    bad = 0
+    shared = sum(1 for a in range(n) for b in range(a + 1, n) if objs[a] is objs[b])
+    for a, b in itertools.product(range(n), repeat=2):
+        try:
+            e = bool(ip.obj_eq(objs[a], objs[b]))
+        except LiftRaise as ex:
+            if "NotImplementedError" in ex.what:
+                continue
+            bad += 1
+            rep.violation("C13-alias", where, f"{names[a]} == {names[b]}", f"with shared sub-objects, comparing {names[a]} with {names[b]} raises: {ex.what}")
+            continue
+        if e != (keys[a] == keys[b]):
+            bad += 1
+            if bad < 6:
+                rep.violation("C13-alias", where, f"{names[a]} | {names[b]}", f"with sub-objects shared by identity {names[a]} == {names[b]} is {e}, but they are {'equal' if keys[a] == keys[b] else 'different'} by construction: the comparison trusts the identity of a part")
+    if not bad:
+        rep.ok("C13-alias", where, f"== on {n} objects built with identity-shared parts ({shared} pairs are one object) is the relation given by the constructor arguments ({n * n} comparisons)")
+
+
 def run(ctx) -> Report:
     rep = Report("C13")
     prog = ctx.prog
     colliding_world(ctx, rep)
+    aliasing_world(ctx, rep)
     W = FormWorld(ctx)
     ip = W.ip
     for name, e in W._elements.items():
